@@ -358,7 +358,7 @@ func cmdExpr(fs *flag.FlagSet) {
 	shards := fs.Int("shards", 8, "shards")
 	styles := fs.Int("styles", 2, "rendering styles per case")
 	fs.Parse(os.Args[2:])
-	startWatchdog(20 * time.Second)
+	startWatchdog(60 * time.Second)
 	f, err := os.Open(*in)
 	if err != nil {
 		fatal("open: %v", err)
